@@ -34,7 +34,9 @@ def main():
             shutil.rmtree("/verif/replays", ignore_errors=True)
         clauses = sorted(set(re.findall(r"^\s+(C\d\d\.[a-z-]+):", out, re.M)))
         hit = "VIOLATION property=%s" % prop in out
-        print("%-50s %s %s %s" % (sid, prop, "caught" if hit else "MISSED", clauses)); sys.stdout.flush()
+        m = re.search(r"violations: (\d+)", out)
+        n = int(m.group(1)) if m else -1
+        print("%-50s %s %s n=%d %s%s" % (sid, prop, "caught" if hit else "MISSED", n, clauses, "  (WEAK: fewer than 5 violating runs in the batch)" if hit and 0 <= n < 5 else "")); sys.stdout.flush()
         if not hit:
             missed.append(sid)
     # leave evidence of the unchanged tree behind, not of a mutant
